@@ -345,17 +345,22 @@ def run(ctx) -> None:
     ctx.check("R3", ok, "_parse_config stores is_new_pattern in the Config", "config._parse_config: Config.is_new_pattern not taken from the predicate", "", loc=pc_fn.loc())
     for fq, eng_true, eng_false in (("config._validate_version_with_pattern", "v2version.parse_version_info", "v1version.parse_version_info"),
                                     ("config._compile_file_patterns", "config._compile_v2_file_patterns", "config._compile_v1_file_patterns"),
-                                    ("cli.get_diff", "cli._v2_get_diff", "cli._v1_get_diff")):
+                                    ("cli.get_diff", "v2rewrite.diff", "v1rewrite.diff")):
         fn = prog.function(fq)
         g = cfgs.get(fq)
         pc = PathCond(g)
         atom = [a for a in pc.atoms if a.endswith("is_new_pattern")]
         ctx.require(len(atom) == 1, f"{fq}: no branch on is_new_pattern")
+        ip20 = ctx.interproc(())
         for callee, want in ((eng_true, BF.var(atom[0])), (eng_false, ~BF.var(atom[0]))):
-            cs = shapes.find_calls(prog, fn, callee)
-            ctx.require(len(cs) >= 1, f"{fq}: call to {callee} not found")
-            r = pc.reach(g.node_containing(cs[0])).project(atom)
-            ctx.check("R3", r.equiv(want), f"{fq}: {callee.split('.')[-1]} selected by is_new_pattern", f"{fq}: engine selection does not follow is_new_pattern", r.to_dnf(), loc=fn.loc(cs[0]))
+            # the call may sit in fq itself or in a helper of the same module below it
+            sites = [(prog.function(f_), c_) for f_ in sorted(ctx.effects.reachable_functions([fq])) if f_.split(".")[0] == fq.split(".")[0]
+                     for c_ in shapes.find_calls(prog, prog.function(f_), callee)]
+            ctx.require(len(sites) >= 1, f"{fq}: call to {callee} not found")
+            r = ip20.site_condition(sites[0][0], sites[0][1], fq).project(atom)
+            cs = [sites[0][1]]
+            fn_site = sites[0][0]
+            ctx.check("R3", r.equiv(want), f"{fq}: {callee} selected by is_new_pattern", f"{fq}: engine selection does not follow is_new_pattern", r.to_dnf(), loc=fn_site.loc(cs[0]))
     # flag validation must not apply new-style rules to legacy patterns
     vf = prog.function("cli._validate_flags")
     vcfg = cfgs.get(vf.fq)
